@@ -438,6 +438,10 @@ inductive Call where
   | helper (h : Helper) (e : Option Err)
   deriving Repr, Inhabited
 
+/-- `c.MustBind(out, opts...)`: `Bind`'s error, if any, goes to `Fail` (and the handler is told to stop);
+    `bindErr` is what `c.Bind` returned (binding and validation are C04's and C05's subjects) -/
+def mustBind (bindErr : Option Err) : Option Call := bindErr.map .fail
+
 /-- the error handed to `fail` -/
 def Call.err : Call → Err
   | .fail e => e
